@@ -132,30 +132,31 @@ Print Assumptions C07_anonymous_error_refuted.
 
 (* options: the integer text is what every module's conversion understands ... *)
 Theorem C07_option_canonical :
-  forall strict else_to p n, read_option strict else_to p (TCanon n) = read_tok p (TCanon n).
+  forall strict named else_to p n, read_option strict named else_to p (TCanon n) = read_tok p (TCanon n).
 Proof. exact option_canon. Qed.
 Print Assumptions C07_option_canonical.
 
 (* ... every integer of the AllowableRange is a member of the enum (for any table row passing option_ok, which the
    check evaluates on the regenerated tables): the conversion to the enum never fails on an accepted value *)
 Theorem C07_option_members :
-  forall t i strict else_to ms, option_ok t (i, strict, else_to, ms) = true ->
+  forall t i strict named else_to ms, option_ok t (i, strict, named, else_to, ms) = true ->
   let p := nth i t dummy_param in forall n, in_runs n (p_range p) = true -> memZb n ms = true.
 Proof. exact option_conversion_total. Qed.
 Print Assumptions C07_option_members.
 
-(* REFUTED: a member written as "4.0" passes ReadParameter and then dies in <Enum>.from_input_string *)
+(* REFUTED: a member written as "5.0" passes ReadParameter and then dies in <Enum>.from_input_string, whose message
+   ("Unknown Configuration input value") does not name 'Well Geometry Configuration' *)
 Theorem C07_option_float_form_refuted :
-  exists p v, in_domain p v = true /\ read_tok p (TNum v) = TAccept v /\ read_option true None p (TNum v) = TErrAnon /\
-              tspec_option_ok p (TNum v) (read_option true None p (TNum v)) = false.
+  exists p v, in_domain p v = true /\ read_tok p (TNum v) = TAccept v /\ read_option true false None p (TNum v) = TErrAnon /\
+              tspec_option_ok p (TNum v) (read_option true false None p (TNum v)) = false.
 Proof. exact option_float_form_refuted. Qed.
 Print Assumptions C07_option_float_form_refuted.
 
 (* REFUTED ("never replaced"): Fracture Shape - every text other than exactly '1', '2', '3' ends as member 4, so "2.0"
    (member 2, accepted by ReadParameter) is silently replaced by 4 *)
 Theorem C07_option_else_refuted :
-  exists p v m, in_domain p v = true /\ read_option false (Some m) p (TNum v) = TAccept (inject_Z m) /\ ~ inject_Z m == v /\
-                tspec_ok p (TNum v) (read_option false (Some m) p (TNum v)) = false.
+  exists p v m, in_domain p v = true /\ read_option false false (Some m) p (TNum v) = TAccept (inject_Z m) /\ ~ inject_Z m == v /\
+                tspec_ok p (TNum v) (read_option false false (Some m) p (TNum v)) = false.
 Proof. exact option_else_refuted. Qed.
 Print Assumptions C07_option_else_refuted.
 
@@ -202,7 +203,8 @@ Proof. vm_compute. reflexivity. Qed.
 Example C07_example_text :
   read_tok ex_float (TNum (15#1)) = TAccept (15#1) /\ read_tok ex_float TPInf = TRejectNamed "Reservoir Depth" /\
   read_tok ex_float TNaN = TAcceptNaN /\ read_tok w_production_wells TText = TErrAnon /\
-  read_option true None w_econ_model (TCanon 4) = TAccept (4#1) /\ read_option true None w_econ_model (TCanon 5) = TRejectNamed "Economic Model" /\
-  option_ok [w_econ_model] (0%nat, true, None, [1; 2; 3; 4]%Z) = true /\ option_ok [w_econ_model] (0%nat, true, None, [1; 2; 3]%Z) = false /\
+  read_option true true None w_econ_model (TCanon 4) = TAccept (4#1) /\ read_option true true None w_econ_model (TCanon 5) = TRejectNamed "Economic Model" /\
+  read_option true true None w_econ_model (TNum (4#1)) = TRejectNamed "Economic Model" /\
+  option_ok [w_econ_model] (0%nat, true, true, None, [1; 2; 3; 4]%Z) = true /\ option_ok [w_econ_model] (0%nat, true, true, None, [1; 2; 3]%Z) = false /\
   read_bool "0" = false /\ read_bool "Yes" = true /\ bool_words_disjoint = bool_words_disjoint.
 Proof. repeat split; vm_compute; reflexivity. Qed.
